@@ -268,6 +268,28 @@ def gen_xmd_pad():
     return out
 
 
+def gen_xmd_len():
+    """requested lengths at the RFC's limit ell = ceil(len_in_bytes / b_in_bytes) <= 255 (5.3.1 step 2): the largest
+    legal request (an exact multiple of the digest size), its neighbours below, and far-from-the-limit multiples"""
+    out = []
+    cases = (("bls12_381_fr", "sha256", 128, (169, 170)),     # L=48: 8112 (ell 254), 8160 = 255*32
+             ("secp256k1_fq", "sha256", 128, (170,)),          # L=48
+             ("bls12_381_fq", "sha256", 128, (127,)),          # L=64: 8128 = 254*32 (exact multiple below the limit)
+             ("bls12_381_fq", "sha512", 128, (254, 255)),      # L=64: 254*64, 255*64 = the limit
+             ("d101", "sha256", 128, (479, 480)))              # L=17: 8143 (ell 255, not a multiple), 8160 = 255*32
+    for fid, hn, k, counts in cases:
+        p, m = FIELDS[fid]
+        L = R.L_of(p, k)
+        b = R.HASHES[hn][1]
+        for count in counts:
+            n = count * m * L
+            assert (n + b - 1) // b <= 255
+            for dst, msg in ((tag(43), b"abc"), (tag(256), b"")):
+                _, e = h2f_entry(fid, hn, k, msg, dst, count)
+                out.append({"f": fid, "h": hn, "k": k, "L": L, "msg": msg.hex(), "dst": dst.hex(), "n": count, "e": e})
+    return out
+
+
 def gen_h2c():
     out = []
     msgs = messages()
@@ -359,7 +381,7 @@ def gen_ell2():
 
 
 def render():
-    sections = [("xmd", gen_xmd()), ("xmd_pad", gen_xmd_pad()), ("h2c", gen_h2c()), ("map", gen_map()), ("ell2", gen_ell2())]
+    sections = [("xmd", gen_xmd()), ("xmd_pad", gen_xmd_pad()), ("xmd_len", gen_xmd_len()), ("h2c", gen_h2c()), ("map", gen_map()), ("ell2", gen_ell2())]
     lines = ["{"]
     lines.append('"generator": "gen/h2c_vectors.py + pyref/rfc9380.py (pure python: hashlib + int)",')
     lines.append('"fields": ' + json.dumps({k: {"p": hx(v[0]), "m": v[1]} for k, v in sorted(FIELDS.items())}, sort_keys=True) + ",")
@@ -398,7 +420,7 @@ def main():
     with open(OUT, "w") as f:
         f.write(text)
     d = json.loads(text)
-    print("wrote %s: %s" % (OUT, ", ".join("%s=%d" % (k, len(d[k])) for k in ("xmd", "xmd_pad", "h2c", "map", "ell2"))))
+    print("wrote %s: %s" % (OUT, ", ".join("%s=%d" % (k, len(d[k])) for k in ("xmd", "xmd_pad", "xmd_len", "h2c", "map", "ell2"))))
     return 0
 
 
